@@ -6,7 +6,6 @@ package httpgen
 
 //@ func camelToSnake(s string) (r string)
 //@   pure
-//@   assume-contract
 
 //@ func (g *Generator) getCustomPath(method *protogen.Method) (r string)
 //@   pure
